@@ -1,7 +1,7 @@
 (* C08 - No goroutine outlives the injector blocked forever. *)
 From Coq Require Import List Arith Bool.
 Import ListNotations.
-Require Import Sem2 Safe Fault.
+Require Import Sem2 Safe Fault Finite.
 
 (* Normal return: in every reachable state of every program - failures and cancellation included - if the injector's
    own thread has returned through its final path (after eg.Wait()) then every goroutine has ended. *)
@@ -30,3 +30,9 @@ Proof.
   intros l H. simpl in H. repeat (destruct H as [<-|H]; [vm_compute; reflexivity|]). destruct H.
 Qed.
 Print Assumptions C08_refuted.
+
+(* Every goroutine's activity is finite: after at most `bound p` steps nothing more can happen without the caller, so a
+   goroutine that has not exited by then never will - which is what the dynamic leak detector observes. *)
+Theorem C08_executions_finite : forall p ls s, run p (init p) ls = Some s -> length (filter noncancel ls) <= bound p.
+Proof. exact runs_are_finite. Qed.
+Print Assumptions C08_executions_finite.
